@@ -95,6 +95,7 @@ def config_case(draw):
         case['key'] = draw(st.sampled_from(['model_uri', 'upload_to', 'webhook', 'extra_cfg', 'camera']))
         case['nest'] = draw(st.lists(st.sampled_from(['list', 'tuple', 'dict', 'adict', 'commastr', 'dictkey']), max_size=3))    # dictkey: the URI is the *key* of a mapping (per-camera settings)
     case['lineage'] = draw(st.booleans())
+    case['loop_raise'] = draw(st.sampled_from([False, False, False, True]))     # Base only: processing raises an error quoting the URI, the run goes on (loop_exc=False)
     case['two'] = draw(st.booleans())
     case['path'] = draw(st.sampled_from(['/live/stream1', '/live/stream1', '', ':8554']))   # host-only URIs are what makes a following URI interesting
     case['sep'] = draw(st.sampled_from([', ', ', ', ',']))
@@ -155,6 +156,20 @@ def prepare():
         def __init__(self, *a, **kw): self.metrics = {}
         def destroy(self): pass
         def send_exit_msg(self, *a): pass
+        def recv(self, *a, **kw): return {}
+        def send(self, *a, **kw): return True
+
+    class LoopRaiser(flt.Filter):      # a filter whose processing fails with an error that quotes one of its URI options
+        text = ''
+
+        def setup(self, config):
+            self.n = 0
+
+        def process(self, frames):
+            self.n += 1
+            if self.n > 2:
+                self.exit('done')
+            raise ConnectionError(self.text)
 
     # no network here: the cloud clients fail at once (what they do with a wrong key), the filter then reports the failure
     import openfilter.filter_runtime.filters.image_in as image_in
@@ -171,6 +186,7 @@ def prepare():
     image_in.boto3, image_in.HAS_BOTO3 = FakeBoto3, True
     image_in.storage, image_in.HAS_GCS = FakeStorage, True
 
+    _M['LoopRaiser'] = LoopRaiser
     _M.update(flt=flt, utils=utils, lineage=lineage, video_in=video_in, VideoWriter=VideoWriter, StubMQ=StubMQ, RealMQ=flt.MQ,
               classes={'Base': Base, 'Util': Util, 'VideoIn': VideoIn, 'VideoOut': VideoOut, 'ImageIn': ImageIn, 'ImageOut': ImageOut,
                        'MQTTOut': MQTTOut, 'REST': REST, 'Webvis': Webvis, 'Recorder': Recorder})
@@ -187,9 +203,11 @@ class Capture(logging.Handler):
         super().__init__(logging.DEBUG)
         self.lines = []
 
+    fmt = logging.Formatter('%(message)s')
+
     def emit(self, record):
         try:
-            self.lines.append(record.getMessage())
+            self.lines.append(self.fmt.format(record))      # what any handler with an ordinary formatter writes: the message and, if present, the traceback text
         except Exception as e:
             self.lines.append(f'<unformattable {e}>')
 
@@ -315,6 +333,12 @@ def run_config(case):
             except ValueError:
                 pass
             stage = 'run (failing configuration)'
+        elif case.get('loop_raise') and case['cls'] == 'Base' and case['where'] == 'custom':
+            LR = _M['LoopRaiser']
+            LR.text = f'could not reach {uri_of(c, case["scheme"])} (attempt failed)'
+            stage = 'run (processing errors swallowed, loop_exc=False)'
+            classes.append('processing raises an error quoting the URI')
+            LR.run(cfg, sig_stop=False, loop_exc=False)
         else:
             try:
                 f = cls(cfg)
